@@ -1,3 +1,27 @@
+/-
+PyFnsEq_Cookie — `dump_cookie` and `parse_cookie` of `werkzeug.http` and `parse_cookie` of
+`werkzeug.sansio.http` *as regenerated from the source* by `tools/py2lean.py`
+(`Gen/PyFns_Cookie.lean`, rewritten on every check run) are equal, for all inputs, to the
+hand-written model functions of `Model/Cookie.lean` (`dumpCookie`, `parseCookie`,
+`parseCookieEnviron`) that the C13 theorems are about. A change of the Python source changes the
+generated definition and breaks these obligations.
+
+Main theorems: `dump_cookie_eq` (with `dump_cookie_core`, `tailSpec_eq`; corollaries
+`dump_cookie_idna_raises`, `dump_cookie_idna_ok`, `dump_cookie_no_domain`, `dump_cookie_empty_domain`,
+`dump_cookie_max_size`), `sansio_parse_cookie_loop_eq`, `sansio_parse_cookie_eq`,
+`sansio_parse_cookie_none`, `http_parse_cookie_eq`, `http_parse_cookie_none`.
+Nothing is weakened: the equalities are exact (values and errors, including which error comes first).
+
+Note on `domain=""`: `if domain:` is false for the empty text, so the variable keeps `""`, which is
+neither `None` nor `False` in the attribute loop: the header contains `Domain=` (checked against
+CPython: `dump_cookie('k', 'v', domain='')` is `'k=v; Domain=; Path=/'`). `domainStep` therefore maps
+`some []` to `some []`, not to `none`; translation, model (`kvPart "Domain" (some [])`) and the real
+function agree.
+
+Helper lemmas that do not mention generated definitions (`dq_step2`, `unquoteValue_eq`, `title_eq`,
+`domainText_eq`) are candidates for the shared libraries (Lemmas/PyFns_HttpList.lean,
+Lemmas/PyFns_Prelude.lean).
+-/
 import WzVerif.Gen.PyFns_Cookie
 import WzVerif.Model.Cookie
 import WzVerif.Lemmas.PyFns_Prelude
@@ -6,7 +30,7 @@ import WzVerif.Lemmas.PyFnsEq_HttpDict
 import WzVerif.Lemmas.PyFnsEq_Conv
 namespace Wz.PyFnsEq.Cookie
 open Wz Wz.Pre Wz.PyFnsHttp
-open Gen.PyFns_Cookie
+open Gen.PyFns_Cookie Wz.PyFnsEq.HttpDict
 
 /-! ## parsing -/
 
@@ -63,5 +87,404 @@ theorem unquoteValue_eq (cv : Str) : Cookie.unquoteValue cv =
     split
     · exact absurd ⟨_, rfl⟩ hq
     · rfl
+
+/-- what one `(ck, cv)` pair of `_cookie_re.findall` contributes -/
+def pairOf (p : Str × Str) : Option (Str × Str) :=
+  if (Py.strip p.1).isEmpty then none else some (Py.strip p.1, Cookie.unquoteValue (Py.strip p.2))
+
+/-- the model's `postProcess`, one pair at a time -/
+theorem postProcess_cons (p : Str × Str) (ps : List (Str × Str)) :
+    Cookie.postProcess (p :: ps) = (pairOf p).toList ++ Cookie.postProcess ps := by
+  unfold Cookie.postProcess pairOf
+  rw [List.filterMap_cons]
+  split <;> simp_all
+
+/-- The `for ck, cv in _cookie_re.findall(cookie)` loop of `sansio.http.parse_cookie`, as translated
+from the current source (`ck.strip()`, `cv.strip()`, the `continue` for an empty name, the test
+`len(cv) >= 2 and cv[0] == cv[-1] == '"'`, the `_cookie_unslash_re.sub` on `cv[1:-1]`, the append):
+it never leaves the function - `cv[0]` / `cv[-1]` are only reached for a value of at least two
+characters, so no `IndexError` - and appends exactly the model's `postProcess` of the pairs, for
+every list of regex matches and every accumulator. -/
+theorem sansio_parse_cookie_loop_eq (ps : List (Str × Str)) : ∀ out : List (Str × Str),
+    sansio_parse_cookie.loop1 ps out = .fall (out ++ Cookie.postProcess ps) := by
+  induction ps with
+  | nil => intro out; simp [sansio_parse_cookie.loop1, Cookie.postProcess]
+  | cons p t ih =>
+    intro out
+    rw [sansio_parse_cookie.loop1, postProcess_cons]
+    simp only [Pre.strip, pairOf]
+    by_cases hk : (Py.strip p.1).isEmpty = true
+    · simp only [hk, if_true, ih, Option.toList_none, List.nil_append]
+    · simp only [hk, Bool.false_eq_true, if_false, cookieUnslashValue]
+      have := dq_step2 (Py.strip p.2)
+        (fun inner => sansio_parse_cookie.loop1 t (out ++ [(Py.strip p.1, Py.decodeReplace (Cookie.unslash (utf8Enc inner)))]))
+        (fun cv => sansio_parse_cookie.loop1 t (out ++ [(Py.strip p.1, cv)]))
+        (fun x => .ret (.error x))
+      refine this.trans ?_
+      rw [unquoteValue_eq]
+      cases Http.stripDq? (Py.strip p.2) <;> simp [ih]
+
+/-- `werkzeug.sansio.http.parse_cookie(cookie)` for a `str`, as translated from the current source
+(the empty-text shortcut, the appended `;`, `_cookie_re.findall`, the loop above, `cls(out)`; the
+translation returns the pair list handed to the `MultiDict` constructor, in order, duplicates
+included), never raises and returns exactly the model's `parseCookie` - the function C13's
+parse / round-trip theorems are about -, for every text. -/
+theorem sansio_parse_cookie_eq (c : List Char) :
+    sansio_parse_cookie (some c) () = .ok (Cookie.parseCookie c) := by
+  unfold sansio_parse_cookie Cookie.parseCookie
+  by_cases h : c.isEmpty = true
+  · simp [h]
+  · simp [h, sansio_parse_cookie_loop_eq, cookieReFindall]
+
+/-- `werkzeug.sansio.http.parse_cookie(None)` is the empty dict. -/
+theorem sansio_parse_cookie_none : sansio_parse_cookie none () = .ok [] := rfl
+
+/-- `werkzeug.http.parse_cookie(header)` for a `str` header, as translated from the current source
+(for a non-empty text the WSGI dance `cookie.encode("latin1").decode(errors="replace")`, then the
+sansio function - itself translated, `sansio_parse_cookie_eq`), equals the model's
+`parseCookieEnviron`, for every text: the same pairs, and `UnicodeEncodeError` exactly when the
+model answers `none` (a character above U+00FF, which cannot come from a WSGI environ). -/
+theorem http_parse_cookie_eq (c : List Char) :
+    http_parse_cookie (some c) () =
+      match Cookie.parseCookieEnviron c with
+      | some r => .ok r
+      | none => .error "UnicodeEncodeError" := by
+  unfold http_parse_cookie Cookie.parseCookieEnviron
+  by_cases h : c.isEmpty = true
+  · have : c = [] := by simpa using h
+    subst this
+    simp [sansio_parse_cookie_eq, Cookie.parseCookie]
+  · simp only [h, Bool.false_eq_true, if_false, Bool.not_false, if_true, Pre.encodeLatin1,
+      Pre.decodeUtf8Replace, sansio_parse_cookie_eq]
+    cases Py.latin1Enc c <;> rfl
+
+/-- `werkzeug.http.parse_cookie(None)` is the empty dict. -/
+theorem http_parse_cookie_none : http_parse_cookie none () = .ok [] := rfl
+
+/-! ## `dump_cookie` -/
+
+/-- the prelude's `str.title()` scanner is the model's -/
+theorem titleAux_eq (s : Str) : ∀ prev, Pre.titleAux prev s = Cookie.titleAscii.go s prev := by
+  induction s with
+  | nil => intro prev; rfl
+  | cons c t ih =>
+    intro prev
+    simp only [Pre.titleAux, Cookie.titleAscii.go, ih]
+    by_cases h : c.isAlpha = true <;> simp [h]
+
+/-- the prelude's ASCII `str.title()` is the model's `titleAscii` -/
+theorem title_eq (s : Str) : Pre.title s = Cookie.titleAscii s := titleAux_eq s false
+
+/-- the text handed to the IDNA codec: `domain.partition(":")[0].lstrip(".")` -/
+def domainText (d : Str) : Str := Pre.lstripChars (Pre.partition d [':']).1 ['.']
+
+/-- … spelled with list primitives: everything before the first `:`, without leading dots -/
+theorem domainText_eq (d : Str) : domainText d = (d.takeWhile (· != ':')).dropWhile (· == '.') := by
+  unfold domainText Pre.lstripChars
+  rw [partition_singleton]
+  congr 1
+  funext c
+  by_cases h : c = '.' <;> simp [h]
+
+/-- The `if domain:` step of `dump_cookie`: what the variable `domain` holds afterwards, or the error
+the IDNA codec (`idna`, opaque) raised. `None` stays `None`; the empty text is falsy and stays `""`
+(and is printed as `Domain=`); anything else is replaced by the IDNA text of
+`domain.partition(":")[0].lstrip(".")`. -/
+def domainStep (idna : Str → Except String Str) : Option Str → Except String (Option Str)
+  | none => .ok none
+  | some d => if d.isEmpty then .ok (some d) else (idna (domainText d)).map some
+
+/-- The `expires` step of `dump_cookie` for `expires : str | None`: a given text is kept; otherwise
+`http_date(now + max_age)` (`expires_in max_age`, opaque) when `max_age` is given and `sync_expires`
+is set; otherwise nothing. -/
+def expiresStep (expires_in : Int → Str) (max_age : Option Int) (expires : Option Str) (sync_expires : Bool) :
+    Option Str :=
+  match expires with
+  | some e => some e
+  | none =>
+    match max_age with
+    | some m => if sync_expires then some (expires_in m) else none
+    | none => none
+
+/-- the `"; "` of `"; ".join(buf)` -/
+def sep : Str := [';', ' ']
+
+/-! the tails of the attribute list: what the unrolled attribute loop still appends from its
+`i`-th item on -/
+
+def parts8 (partitioned : Bool) : List Str := Cookie.flagPart "Partitioned" partitioned
+def parts7 (ss : Option Str) (partitioned : Bool) : List Str := Cookie.kvPart "SameSite" ss ++ parts8 partitioned
+def parts6 (path ss : Option Str) (partitioned : Bool) : List Str := Cookie.kvPart "Path" path ++ parts7 ss partitioned
+def parts5 (httponly : Bool) (path ss : Option Str) (partitioned : Bool) : List Str :=
+  Cookie.flagPart "HttpOnly" httponly ++ parts6 path ss partitioned
+def parts4 (secure httponly : Bool) (path ss : Option Str) (partitioned : Bool) : List Str :=
+  Cookie.flagPart "Secure" secure ++ parts5 httponly path ss partitioned
+def parts3 (maxAge : Option Int) (secure httponly : Bool) (path ss : Option Str) (partitioned : Bool) : List Str :=
+  Cookie.kvPart "Max-Age" (maxAge.map Cookie.intText) ++ parts4 secure httponly path ss partitioned
+def parts2 (expires : Option Str) (maxAge : Option Int) (secure httponly : Bool) (path ss : Option Str)
+    (partitioned : Bool) : List Str :=
+  Cookie.kvPart "Expires" expires ++ parts3 maxAge secure httponly path ss partitioned
+/-- the attribute parts of the header, from the values `dump_cookie`'s local variables hold when the
+attribute loop starts -/
+def parts (domain expires : Option Str) (maxAge : Option Int) (secure httponly : Bool)
+    (path ss : Option Str) (partitioned : Bool) : List Str :=
+  Cookie.kvPart "Domain" domain ++ parts2 expires maxAge secure httponly path ss partitioned
+
+/-- `dump_cookie` from the value-quoting step on (`ps` = the attribute parts) -/
+def valueSpec (key value : Str) (ps : List Str) : Except String Str :=
+  match Cookie.dumpValue value with
+  | .error e => .error e
+  | .ok hv => .ok (Pre.join sep ((Pre.utf8ThenLatin1 key ++ ['='] ++ hv) :: ps))
+
+/-- `dump_cookie` from the SameSite step on, with the values the local variables hold at that point -/
+def tailSpec (key value : Str) (maxAge : Option Int) (expires path domain : Option Str)
+    (secure httponly : Bool) (samesite : Option Str) (partitioned : Bool) : Except String Str :=
+  match Cookie.canonSameSite samesite with
+  | .error e => .error e
+  | .ok ss => valueSpec key value (parts domain expires maxAge (partitioned || secure) httponly path ss partitioned)
+
+/-- the attribute names of the source's tuple literal, as the model spells them -/
+theorem kv_lits : "Domain".toList = ['D', 'o', 'm', 'a', 'i', 'n'] ∧ "Expires".toList = ['E', 'x', 'p', 'i', 'r', 'e', 's']
+    ∧ "Max-Age".toList = ['M', 'a', 'x', '-', 'A', 'g', 'e'] ∧ "Secure".toList = ['S', 'e', 'c', 'u', 'r', 'e']
+    ∧ "HttpOnly".toList = ['H', 't', 't', 'p', 'O', 'n', 'l', 'y'] ∧ "Path".toList = ['P', 'a', 't', 'h']
+    ∧ "SameSite".toList = ['S', 'a', 'm', 'e', 'S', 'i', 't', 'e']
+    ∧ "Partitioned".toList = ['P', 'a', 'r', 't', 'i', 't', 'i', 'o', 'n', 'e', 'd'] := by decide
+
+/-- the `{"Strict", "Lax", "None"}` literal -/
+theorem ss_lits : "Strict".toList = ['S', 't', 'r', 'i', 'c', 't'] ∧ "Lax".toList = ['L', 'a', 'x']
+    ∧ "None".toList = ['N', 'o', 'n', 'e'] := by decide
+
+/-- `dump_cookie`, as translated from the current source, in terms of the steps of this file
+(`domainStep`, `expiresStep`, `tailSpec`). The proof follows the translation's continuation structure
+(`k1_` … `k25_`: one local function per `if` of the source and per item of the unrolled attribute
+loop) from the outside in, proving for each continuation a closed form of everything that follows.
+The size warning (`max_size`) has no influence on the result. -/
+theorem dump_cookie_core (idna : Str → Except String Str) (expires_in : Int → Str) (key value : Str)
+    (max_age : Option Int) (expires path domain : Option Str) (secure httponly sync_expires : Bool)
+    (max_size : Int) (samesite : Option Str) (partitioned : Bool) :
+    dump_cookie idna expires_in key value max_age expires path domain secure httponly sync_expires
+        max_size samesite partitioned =
+      (domainStep idna domain).bind fun d =>
+        tailSpec key value max_age (expiresStep expires_in max_age expires sync_expires)
+          (path.map (Url.quote ['%', '!', '$', '&', '\'', '(', ')', '*', '+', ',', '/', ':', '=', '@']))
+          d secure httponly samesite partitioned := by
+  unfold dump_cookie
+  extract_lets -underBinder +onlyGivenNames k1
+  have h1 : ∀ p, k1 p = (domainStep idna domain).bind fun d =>
+      tailSpec key value max_age (expiresStep expires_in max_age expires sync_expires) p d secure
+        httponly samesite partitioned := by
+    intro p; unfold k1; extract_lets -underBinder +onlyGivenNames k2
+    have h2 : ∀ d, k2 d = tailSpec key value max_age (expiresStep expires_in max_age expires sync_expires)
+        p d secure httponly samesite partitioned := by
+      intro d; unfold k2; extract_lets -underBinder +onlyGivenNames k3
+      have h3 : ∀ m, k3 m = tailSpec key value m (expiresStep expires_in m expires sync_expires)
+          p d secure httponly samesite partitioned := by
+        intro m; unfold k3; extract_lets -underBinder +onlyGivenNames k4
+        have h4 : ∀ e, k4 e = tailSpec key value m e p d secure httponly samesite partitioned := by
+          intro e; unfold k4; extract_lets -underBinder +onlyGivenNames k7
+          have h7 : ∀ ss, k7 ss = valueSpec key value
+              (parts d e m (partitioned || secure) httponly p ss partitioned) := by
+            intro ss; unfold k7; extract_lets -underBinder +onlyGivenNames k9 sec'
+            have h9 : ∀ sec, k9 sec = valueSpec key value (parts d e m sec httponly p ss partitioned) := by
+              intro sec; unfold k9; extract_lets -underBinder +onlyGivenNames k10
+              have h10 : ∀ v, k10 v = .ok (Pre.join sep ((Pre.utf8ThenLatin1 key ++ ['='] ++ v) ::
+                  parts d e m sec httponly p ss partitioned)) := by
+                intro v; unfold k10; extract_lets -underBinder +onlyGivenNames buf0 kD vD k11
+                have h11 : ∀ buf, k11 buf = .ok (Pre.join sep (buf ++ parts2 e m sec httponly p ss partitioned)) := by
+                  intro buf; unfold k11; extract_lets -underBinder +onlyGivenNames kE vE k13
+                  have h13 : ∀ buf, k13 buf = .ok (Pre.join sep (buf ++ parts3 m sec httponly p ss partitioned)) := by
+                    intro buf; unfold k13; extract_lets -underBinder +onlyGivenNames kM vM k15
+                    have h15 : ∀ buf, k15 buf = .ok (Pre.join sep (buf ++ parts4 sec httponly p ss partitioned)) := by
+                      intro buf; unfold k15; extract_lets -underBinder +onlyGivenNames kS vS k17
+                      have h17 : ∀ buf, k17 buf = .ok (Pre.join sep (buf ++ parts5 httponly p ss partitioned)) := by
+                        intro buf; unfold k17; extract_lets -underBinder +onlyGivenNames kH vH k19
+                        have h19 : ∀ buf, k19 buf = .ok (Pre.join sep (buf ++ parts6 p ss partitioned)) := by
+                          intro buf; unfold k19; extract_lets -underBinder +onlyGivenNames kP vP k21
+                          have h21 : ∀ buf, k21 buf = .ok (Pre.join sep (buf ++ parts7 ss partitioned)) := by
+                            intro buf; unfold k21; extract_lets -underBinder +onlyGivenNames kSS vSS k23
+                            have h23 : ∀ buf, k23 buf = .ok (Pre.join sep (buf ++ parts8 partitioned)) := by
+                              intro buf; unfold k23; extract_lets -underBinder +onlyGivenNames kPa vPa k25
+                              have h25 : ∀ buf, k25 buf = .ok (Pre.join sep buf) := by
+                                intro buf; unfold k25
+                                simp only [sep]
+                                split <;> rfl
+                              cases partitioned <;> simp [vPa, kPa, h25, parts8, Cookie.flagPart, kv_lits]
+                            cases ss <;> simp [vSS, kSS, h23, parts7, Cookie.kvPart, kv_lits]
+                          cases p <;> simp [vP, kP, h21, parts6, Cookie.kvPart, kv_lits]
+                        cases httponly <;> simp [vH, kH, h19, parts5, Cookie.flagPart, kv_lits]
+                      cases sec <;> simp [vS, kS, h17, parts4, Cookie.flagPart, kv_lits]
+                    cases m <;> simp [vM, kM, h15, parts3, Cookie.kvPart, kv_lits, Cookie.intText, Pre.strOfInt]
+                  cases e <;> simp [vE, kE, h13, parts2, Cookie.kvPart, kv_lits]
+                cases d <;> simp [vD, kD, buf0, h11, Cookie.kvPart, kv_lits, parts]
+              simp only [h10, valueSpec, Cookie.dumpValue, cookieNoQuoteFullmatch, cookieEscapeValue]
+              by_cases hq : value.all Cookie.noQuoteChar = true
+              · simp [hq]
+              · simp only [hq]
+                cases Cookie.escapeBytes (utf8Enc value) with
+                | none => simp
+                | some b => cases h : Cookie.asciiDec b <;> simp [h]
+            rw [h9]
+            cases partitioned <;> simp [sec']
+          cases samesite with
+          | none => simp [h7, tailSpec, Cookie.canonSameSite]
+          | some s =>
+            simp only [h7, tailSpec, Cookie.canonSameSite, title_eq, ss_lits]
+            generalize Cookie.titleAscii s = t
+            by_cases hc : (t == ['S', 't', 'r', 'i', 'c', 't'] || t == ['L', 'a', 'x'] || t == ['N', 'o', 'n', 'e']) = true
+            · simp only [hc, Bool.not_true, Bool.false_eq_true, if_false, if_true]
+            · simp only [hc, Bool.not_false, Bool.false_eq_true, if_false, if_true]
+        cases expires <;> cases m <;> cases sync_expires <;> simp [h4, expiresStep]
+      exact h3 max_age
+    cases domain with
+    | none => simp [h2, domainStep, Except.bind]
+    | some dom =>
+      by_cases he : dom.isEmpty = true
+      · simp [h2, domainStep, Except.bind, he]
+      · simp only [h2, domainStep, he, domainText]
+        cases idna (Pre.lstripChars (Pre.partition dom [':']).1 ['.']) <;> simp [Except.bind, Except.map]
+  cases path <;> simp [h1]
+
+/-- from the SameSite step on, the translation is the model's `dumpCookie` on the attribute record
+(`"; ".join` = `List.intercalate`, `key.encode().decode("latin1")`, `Partitioned` forces `Secure`) -/
+theorem tailSpec_eq (key value : Str) (m : Option Int) (e p d : Option Str) (secure httponly : Bool)
+    (samesite : Option Str) (partitioned : Bool) :
+    tailSpec key value m e p d secure httponly samesite partitioned =
+      Cookie.dumpCookie key value {
+        domain := d, expires := e, maxAge := m, secure := secure,
+        httponly := httponly, path := p, samesite := samesite, partitioned := partitioned } := by
+  have hs : "; ".toList = [';', ' '] := by decide
+  unfold tailSpec Cookie.dumpCookie valueSpec
+  cases Cookie.canonSameSite samesite with
+  | error x => rfl
+  | ok ss =>
+    simp only []
+    cases Cookie.dumpValue value with
+    | error x => rfl
+    | ok hv =>
+      simp [Conv.join_eq_intercalate, sep, hs, parts, parts2, parts3, parts4, parts5, parts6, parts7, parts8,
+        Cookie.attrParts, Pre.utf8ThenLatin1, Bool.or_comm]
+
+/-- the `safe="%!$&'()*+,/:=@"` literal of the `quote(path, …)` call -/
+theorem safe_lit : "%!$&'()*+,/:=@".toList = ['%', '!', '$', '&', '\'', '(', ')', '*', '+', ',', '/', ':', '=', '@'] := by
+  decide
+
+/-- `dump_cookie(key, value, max_age, expires, path, domain, secure, httponly, sync_expires=…,
+max_size=…, samesite, partitioned)`, as translated from the current source (parameters of the
+translation: the IDNA codec `idna` and `expires_in max_age` = `http_date(now + max_age)`, both
+opaque; `max_age : int | None`, `expires : str | None`), equals - for all arguments - the model's
+`Cookie.dumpCookie key value attrs` (the function C13's `Set-Cookie` theorems are about) on the
+attribute record the source computes before it assembles the header:
+
+* `path` is `quote(path, safe="%!$&'()*+,/:=@")` (the `safe=` literal is pinned here: changing it in
+  the source breaks this theorem), `None` stays `None`;
+* `domain` is `domainStep`: `None` for `None`, `""` for `""` (printed as `Domain=`), otherwise the
+  IDNA text of `domain.partition(":")[0].lstrip(".")`;
+* `expires` is `expiresStep`: the given text, else `http_date(now + max_age)` when `max_age` is given
+  and `sync_expires`, else nothing;
+* `max_age`, `secure`, `httponly`, `samesite`, `partitioned` as given (`samesite.title()` with the
+  `ValueError`, `Partitioned` ⇒ `Secure`, the value quoting with its `KeyError` /
+  `UnicodeDecodeError` are inside `dumpCookie`, in the source's order).
+
+Order of effects: a raising IDNA codec makes the function raise that error *before* the SameSite
+check and the value escaping are reached (`Except.bind`); then `ValueError` for a bad SameSite; then
+the escaping errors - exactly the order of the source. `max_size` does not occur on the right-hand
+side: the size warning does not change the result. -/
+theorem dump_cookie_eq (idna : Str → Except String Str) (expires_in : Int → Str) (key value : Str)
+    (max_age : Option Int) (expires path domain : Option Str) (secure httponly sync_expires : Bool)
+    (max_size : Int) (samesite : Option Str) (partitioned : Bool) :
+    dump_cookie idna expires_in key value max_age expires path domain secure httponly sync_expires
+        max_size samesite partitioned =
+      (domainStep idna domain).bind fun d =>
+        Cookie.dumpCookie key value {
+          domain := d
+          expires := expiresStep expires_in max_age expires sync_expires
+          maxAge := max_age
+          secure := secure
+          httponly := httponly
+          path := path.map (Url.quote "%!$&'()*+,/:=@".toList)
+          samesite := samesite
+          partitioned := partitioned } := by
+  rw [dump_cookie_core, safe_lit]
+  simp only [tailSpec_eq]
+
+/-- A raising IDNA codec (`domain` non-empty) makes `dump_cookie` raise that very error, whatever
+the other arguments are - in particular before a bad `samesite` (`ValueError`) or an unescapable
+value is looked at. -/
+theorem dump_cookie_idna_raises (idna : Str → Except String Str) (expires_in : Int → Str) (key value : Str)
+    (max_age : Option Int) (expires path : Option Str) (dom : Str) (secure httponly sync_expires : Bool)
+    (max_size : Int) (samesite : Option Str) (partitioned : Bool) (x : String)
+    (hne : dom ≠ []) (hx : idna (domainText dom) = .error x) :
+    dump_cookie idna expires_in key value max_age expires path (some dom) secure httponly sync_expires
+        max_size samesite partitioned = .error x := by
+  have he : dom.isEmpty = false := by cases dom <;> simp_all
+  rw [dump_cookie_eq]
+  simp [domainStep, he, hx, Except.map, Except.bind]
+
+/-- With an IDNA codec that answers `t` for the (non-empty) domain, `dump_cookie` is the model's
+`dumpCookie` with `Domain=t`. -/
+theorem dump_cookie_idna_ok (idna : Str → Except String Str) (expires_in : Int → Str) (key value : Str)
+    (max_age : Option Int) (expires path : Option Str) (dom t : Str) (secure httponly sync_expires : Bool)
+    (max_size : Int) (samesite : Option Str) (partitioned : Bool)
+    (hne : dom ≠ []) (ht : idna (domainText dom) = .ok t) :
+    dump_cookie idna expires_in key value max_age expires path (some dom) secure httponly sync_expires
+        max_size samesite partitioned =
+      Cookie.dumpCookie key value {
+        domain := some t
+        expires := expiresStep expires_in max_age expires sync_expires
+        maxAge := max_age
+        secure := secure
+        httponly := httponly
+        path := path.map (Url.quote "%!$&'()*+,/:=@".toList)
+        samesite := samesite
+        partitioned := partitioned } := by
+  have he : dom.isEmpty = false := by cases dom <;> simp_all
+  rw [dump_cookie_eq]
+  simp [domainStep, he, ht, Except.map, Except.bind]
+
+/-- Without a domain the IDNA codec is never consulted: `dump_cookie` is the model's `dumpCookie`
+without a `Domain` attribute. -/
+theorem dump_cookie_no_domain (idna : Str → Except String Str) (expires_in : Int → Str) (key value : Str)
+    (max_age : Option Int) (expires path : Option Str) (secure httponly sync_expires : Bool)
+    (max_size : Int) (samesite : Option Str) (partitioned : Bool) :
+    dump_cookie idna expires_in key value max_age expires path none secure httponly sync_expires
+        max_size samesite partitioned =
+      Cookie.dumpCookie key value {
+        domain := none
+        expires := expiresStep expires_in max_age expires sync_expires
+        maxAge := max_age
+        secure := secure
+        httponly := httponly
+        path := path.map (Url.quote "%!$&'()*+,/:=@".toList)
+        samesite := samesite
+        partitioned := partitioned } := by
+  rw [dump_cookie_eq]; rfl
+
+/-- `domain=""`: the IDNA codec is not consulted either, and the header carries an empty `Domain=`
+attribute (as the real function does). -/
+theorem dump_cookie_empty_domain (idna : Str → Except String Str) (expires_in : Int → Str) (key value : Str)
+    (max_age : Option Int) (expires path : Option Str) (secure httponly sync_expires : Bool)
+    (max_size : Int) (samesite : Option Str) (partitioned : Bool) :
+    dump_cookie idna expires_in key value max_age expires path (some []) secure httponly sync_expires
+        max_size samesite partitioned =
+      Cookie.dumpCookie key value {
+        domain := some []
+        expires := expiresStep expires_in max_age expires sync_expires
+        maxAge := max_age
+        secure := secure
+        httponly := httponly
+        path := path.map (Url.quote "%!$&'()*+,/:=@".toList)
+        samesite := samesite
+        partitioned := partitioned } := by
+  rw [dump_cookie_eq]; rfl
+
+/-- `max_size` only drives a warning: the returned header (or error) does not depend on it. -/
+theorem dump_cookie_max_size (idna : Str → Except String Str) (expires_in : Int → Str) (key value : Str)
+    (max_age : Option Int) (expires path domain : Option Str) (secure httponly sync_expires : Bool)
+    (max_size max_size' : Int) (samesite : Option Str) (partitioned : Bool) :
+    dump_cookie idna expires_in key value max_age expires path domain secure httponly sync_expires
+        max_size samesite partitioned =
+    dump_cookie idna expires_in key value max_age expires path domain secure httponly sync_expires
+        max_size' samesite partitioned := by
+  rw [dump_cookie_eq, dump_cookie_eq]
 
 end Wz.PyFnsEq.Cookie
